@@ -121,7 +121,7 @@ func c12idsCase(name string, R, r uint64, n int) {
 }
 
 // the predicates of the theorems (Saver.v: no_nl, label_safe): the implementation-side oracle asserts
-// naming on names without line breaks, label uniqueness on names containing neither "(1/1)" nor "As-Is",
+// naming on every name (line breaks only change WHAT the JSON set name is, not that it is one value), label uniqueness on names containing neither "(1/1)" nor "As-Is",
 // completeness and faithfulness of the rows on every name
 func c12noNl(name string) bool { return !strings.Contains(name, "\n") }
 func c12labelSafe(name string) bool {
@@ -138,7 +138,7 @@ func c12idsOracle(fam, name string, R, r uint64, n int, keys []c12keyObs) {
 	bad := ""
 	labels := map[string]bool{}
 	for _, k := range keys {
-		if c12noNl(name) {
+		if true { // key independence and no panic are proved for EVERY name (C12_naming_deterministic_all_names_*)
 			if k.JPanic {
 				bad = "JSON set name panics on key " + strconv.Quote(k.Id)
 			}
